@@ -40,6 +40,8 @@ theorem C01_facts :
     Facts.tlcp.negEcdheAuthOverride = true ∧ Facts.dtlcp.negEcdheAuthOverride = true ∧
     Facts.tlcp.negCertReqFromRequest = true ∧ Facts.dtlcp.negCertReqFromRequest = true ∧
     Facts.tlcp.negVerifyFromIfGiven = true ∧ Facts.dtlcp.negVerifyFromIfGiven = true ∧
+    Facts.tlcp.negResumePolicyGuards = true ∧ Facts.dtlcp.negResumePolicyGuards = true ∧
+    Facts.tlcp.negResumeReprocessesCerts = true ∧ Facts.dtlcp.negResumeReprocessesCerts = true ∧
     Facts.tlcp.VersionTLCP = docVersion ∧ Facts.dtlcp.VersionTLCP = docVersion ∧
     Facts.missing = [] := by
   decide
@@ -90,14 +92,28 @@ theorem C01_views_agree (st : Stack) (c : ClientCfg) (s : ServerCfg) (a : Agreed
   exact ⟨rfl, rfl, rfl, rfl, rfl, rfl, rfl, rfl⟩
 
 /-- The next connection between the same two configurations also succeeds, with the same
-parameters and certificates, and both ends report it resumed exactly when both sides have a
-session cache. -/
+parameters and certificates, and both ends report the same resumption flag: resumed exactly
+when both sides have a session cache and the server's policy admits the recorded session
+(a NoClientCert server falls back to a full handshake for a session that recorded client
+certificates, i.e. after ECDHE). -/
 theorem C01_next_connection (st : Stack) (c : ClientCfg) (s : ServerCfg) (h : compatible c s = true) :
     negotiateNext (factsP st) c s (expected c s) = .ok (expectedNext c s) ∧
-    (expectedNext c s).client.resumed = (c.cache && s.cache) ∧
-    (expectedNext c s).server.resumed = (c.cache && s.cache) := by
+    (expectedNext c s).client.resumed = (expectedNext c s).server.resumed ∧
+    (expectedNext c s).client.resumed = resumable c s ∧
+    (resumable c s = true → c.cache = true ∧ s.cache = true) ∧
+    (c.cache = true → s.cache = true → s.auth ≠ .noClientCert → resumable c s = true) ∧
+    (expectedNext c s).client.suite = (expected c s).client.suite ∧
+    (expectedNext c s).client.alpn = (expected c s).client.alpn ∧
+    (expectedNext c s).server.peerCerts = (expected c s).server.peerCerts := by
   rw [factsP_eq]
-  exact ⟨negotiateNext_ref c s h, rfl, rfl⟩
+  refine ⟨negotiateNext_ref c s h, rfl, rfl, ?_, ?_, rfl, rfl, rfl⟩
+  · intro hr
+    unfold resumable at hr
+    simp only [Bool.and_eq_true] at hr
+    exact ⟨hr.1.1, hr.1.2⟩
+  · intro h1 h2 h3
+    unfold resumable
+    cases ha : s.auth <;> simp_all
 
 /-! ### the suite is the first mutual one in the documented priority order -/
 
